@@ -26,7 +26,6 @@ PseudoM == "ia" :> "pia" @@ "ib" :> "pib" @@ "im" :> "pim" @@ "io" :> "pio" @@ "
 MagicM == "A" :> 1 @@ "B" :> 1 @@ "M" :> 2 @@ "O" :> 1 @@ "D" :> 1 @@ "V" :> 1
 IpM == "A" :> "10.0.0.1" @@ "B" :> "10.0.0.2" @@ "M" :> "10.0.0.3" @@ "O" :> "10.0.0.4" @@ "D" :> "10.0.0.5" @@ "V" :> "10.0.0.6"
 AddrM == [n \in NodesM |-> "L" \o n]
-ConnsLive == {"c1", "c2", "a1"}
 FaultsAll == {"dialfail", "timeout", "break", "junk", "magic"}
 
 Sc(cs, f) == [conns |-> cs, maxf |-> f]
@@ -43,6 +42,7 @@ ScQ4 == {Sc({"c1"}, 2),                   \* one dial, every fault kind, up to t
          Sc({"m1", "m2"}, 0),             \* a peer of another network
          Sc({"o4", "o8"}, 0)}             \* a node dials itself and meets its own PSEUDO id
 ScQuick == ScQ1 \cup ScQ2 \cup ScQ3 \cup ScQ4
+ScTV == {Sc({"c1"}, 2), Sc({"c1", "c2"}, 0), Sc({"c1", "c3"}, 0), Sc({"c1", "d1"}, 0), Sc({"a1"}, 1), Sc({"c4", "c8"}, 0)}
 ScThorough == {Sc({"c1", "c2"}, 1), Sc({"c1", "c3"}, 1), Sc({"c1", "c2", "c3"}, 0), Sc({"o1", "o2"}, 1), Sc({"c1", "d1"}, 1)}
 ScSim == {Sc({"c1", "c2", "c3", "d1", "o1", "o2", "m1"}, 2), Sc({"c1", "c2", "c3", "a1", "o1", "v1", "d2"}, 2)}
 ScRe == {Sc({"c1", "c3"}, 0)}
